@@ -18,7 +18,7 @@ LEVEL = "exploration"
 RULE = (
     "(a) generated well-formed headers: every key alone x its value alphabet, every ordered pair of optional keys, all "
     "permutations of a 5-key subset, the full 22-key header forward/reversed/rotated; encode(parse(bytes)) == bytes and "
-    "hdrlen exact. (b) Header -> prep_outfile -> from_sigproc over grids: 8 RA x 26 Dec x 3 frames, 16 telescopes x 17 "
+    "hdrlen exact. (b) Header -> prep_outfile -> from_sigproc over grids: 10 RA x 29 Dec x 3 frames, 16 telescopes x 17 "
     "backends, channelisation x tsamp x tstart x nbits, names, beams, refdm, az/za. (c) every key of the table + unknown + "
     "absent keys x a value alphabet (valid, wrong type, wrong length, equal length) through edit_header. Non-trivial = "
     "every case except single-key headers with a zero value"
@@ -148,11 +148,11 @@ def _bytes(wd, shard, ctx, res, only):
 # (b) Header fields
 
 
-RAS = ["00:00:00", "00:00:00.5", "12:34:56.7", "23:59:59.9", "05:00:00", "11:59:59.999", "18:30:30.25", "09:09:09.09"]
+RAS = ["00:00:00", "00:00:00.5", "12:34:56.7", "23:59:59.9", "05:00:00", "11:59:59.999", "18:30:30.25", "09:09:09.09", "23:59:59.99996", "05:34:31.97232"]
 DECS = ["+00:00:00", "+00:00:00.5", "-00:00:00.5", "-00:00:01", "-00:30:00", "-00:30:00.5", "-00:59:59.99", "-01:00:00",
         "+00:30:00", "+00:59:59.99", "+01:00:00", "-00:10:10.1", "+89:59:59.9", "-89:59:59.9", "+12:34:56.7", "-12:34:56.7",
         "+45:00:00", "-45:00:00", "-00:01:00", "-00:00:59.9", "-09:59:59.99", "-10:00:00", "+00:00:59.9", "-60:30:30.3",
-        "-00:45:15.75", "+00:45:15.75"]
+        "-00:45:15.75", "+00:45:15.75", "-00:59:59.99996", "+22:00:52.0690", "-00:00:59.99996"]
 FRAMES = ["topocentric", "barycentric", "pulsarcentric"]
 
 
